@@ -50,10 +50,13 @@ HasBrace(s) == \E i \in 1..Len(s) : s[i] = 123 \/ s[i] = 125
 \* also the unique longest by characters are kept out of the domain, the property does not say which)
 MaxLen(xs) == CHOOSE m \in {Len(xs[k]) : k \in 1..Len(xs)} : \A k \in 1..Len(xs) : Len(xs[k]) <= m
 UniqueLongestChars(xs) == Cardinality({k \in 1..Len(xs) : Len(xs[k]) = MaxLen(xs)}) = 1
+\* an identifier that is re-cased must lie inside the case table the model knows (Chars: ASCII + Latin-1 letters)
+Recased(E, v) == E.style # "none" /\ v.ser = <<>> /\ ~IsSome(v.ts)
 NamesWF(E) == \A i \in Idx(E) : LET v == E.variants[i] IN
-                 (~IsSome(v.ts) /\ v.ser # <<>>) =>
-                    /\ UniqueLongest(v.ser) /\ UniqueLongestChars(v.ser)
-                    /\ Len(v.ser[Longest(v.ser)]) = MaxLen(v.ser)
+                 /\ (~IsSome(v.ts) /\ v.ser # <<>>) =>
+                       /\ UniqueLongest(v.ser) /\ UniqueLongestChars(v.ser)
+                       /\ Len(v.ser[Longest(v.ser)]) = MaxLen(v.ser)
+                 /\ Recased(E, v) => IdentInTable(v.id)
 \* documented: const_into_str is not supported in combination with transparent
 IntoStrWF(E) == ~(E.cis /\ \E i \in Idx(E) : E.variants[i].transp)
 \* names containing braces are format strings (C17), not fixed names
